@@ -7,7 +7,7 @@ import oracle as orc
 from common import Rng, frac_of, enc_exact, enc_round, f64_bits
 
 
-NOSTD_BINS = ("x_core", "x_rate")
+NOSTD_BINS = ("x_core", "x_rate", "x_derived")
 
 
 def prepare(backends=("f64", "dec"), bins=("x_core",), profile="dev"):
